@@ -22,7 +22,7 @@ func init() {
 		Technique: "guard analysis and must-pass path queries on the handler for every store to Response.Body, table agreement (filter kind / Accept-Encoding token / Content-Encoding value / command), feasible-path bounds of the configured quality against the compressor's admissible range, structural checks of the filters' Read/Close",
 		Meta: core.Meta{
 			Level:       "other",
-			Explanation: "Decides for bfe_modules/mod_compress: (1) every store to the response body in the package installs the result of a filter constructor that wraps the previous res.Body; (2) from each such store every path to a return (other than the constructor-error return) sets Content-Encoding on the same response to the coding of that filter's compressor (compress/gzip -> gzip, andybalholm/brotli -> br), no other Content-Encoding value is reachable, and Content-Length is deleted; (3) the store is control-dependent on the Accept-Encoding header of the request containing that same token (bfe_http.HasToken) and on the response not carrying a non-identity Content-Encoding; (4) the command arm (GZIP/BROTLI) matches the filter and the handler knows exactly the commands ActionFileCheck accepts; (5) the constructor's error path cannot leave res.Body overwritten: either the store is dominated by the error test or the constructor fails only on a compression level that ActionFileCheck's range check excludes on every accepting path; (6) each filter's constructor compresses into its own buffer and keeps the given source; Read copies source -> compressor, does not treat io.EOF as failure, flushes after data, closes the compressor exactly when nothing more was copied (finalising the stream) and returns what the buffer yields; Close closes the source. Not covered: decompression equality of the produced bytes (compressor libraries are trusted), write chunking, interaction with other modules that touch Content-Encoding later.",
+			Explanation: "Decides for bfe_modules/mod_compress: (1) every store to the response body in the package installs the result of a filter constructor that wraps the previous res.Body; (2) from each such store every path to a return (other than the constructor-error return) sets Content-Encoding on the same response to the coding of that filter's compressor (compress/gzip -> gzip, andybalholm/brotli -> br), no other Content-Encoding value is reachable, and Content-Length is deleted; (3) the store is control-dependent on the Accept-Encoding header of the request containing that same token (bfe_http.HasToken) and on the response not carrying a non-identity Content-Encoding; (4) the command arm (GZIP/BROTLI) matches the filter and the handler knows exactly the commands ActionFileCheck accepts; (5) the constructor's error path cannot leave res.Body overwritten: either the store is dominated by the error test or the constructor fails only on a compression level that ActionFileCheck's range check excludes on every accepting path; (6) each filter's constructor compresses into its own buffer and keeps the given source; Read copies source -> compressor, does not treat io.EOF as failure, flushes after data, closes the compressor exactly when nothing more was copied (finalising the stream) and returns what the buffer yields; Close closes the source. The per-store obligations (2)-(4) are decided over the calling context: when the store sits in a private helper of the handler (unexported, one static call site, never used as a value) the branch facts of the call site count, parameters are translated to the arguments passed, the must-pass paths continue in the caller after the call along the branch edges consistent with the constant the helper returns, and a call that hands the response to a function all of whose paths set / delete the header counts as doing so. Comparisons are accepted in every spelling (mirrored operands, negated branch). Not covered: a response handed to a helper as anything but the *Response itself (e.g. only its Header), helpers reached through closures or function values, quality range checks moved out of ActionFileCheck's own body, decompression equality of the produced bytes (compressor libraries are trusted), write chunking, interaction with other modules that touch Content-Encoding later.",
 			RuleText:    "obligations = each Response.Body store x {wraps-original, encoding, length, accept gate, prior-encoding gate, command arm, constructor-error safety}; each filter type x {constructor, copy, EOF, flush, finalise, output, close}; command table agreement",
 			Assumptions: []string{"content-coding names: compress/gzip produces `gzip`, andybalholm/brotli produces `br` (IANA registry)", "mod_compress writes response headers only through bfe_http.Header.Set/Add/Del"},
 		},
@@ -43,6 +43,10 @@ func init() {
 			{Name: "brotli-command-unknown-to-handler", File: "bfe_modules/mod_compress/action.go", Old: "	case ActionBrotli:\n		if", New: "	case ActionBrotli, \"ZSTD\":\n		if", Expect: "command-known"},
 			{Name: "silent-assign-after-error-test", File: "bfe_modules/mod_compress/mod_compress.go", Old: "		res.Body, err = NewGzipFilter(res.Body, rule.Action.Quality, rule.Action.FlushSize)\n		if err != nil {\n			return bfe_module.BfeHandlerGoOn\n		}\n", New: "		filter, err := NewGzipFilter(res.Body, rule.Action.Quality, rule.Action.FlushSize)\n		if err != nil {\n			return bfe_module.BfeHandlerGoOn\n		}\n		res.Body = filter\n", Silent: true},
 			{Name: "silent-accept-inline", File: "bfe_modules/mod_compress/mod_compress.go", Old: "		if !checkSupportGzipCompress(acceptEncoding) {\n			return bfe_module.BfeHandlerGoOn\n		}\n", New: "		if ok := bfe_http.HasToken(acceptEncoding, EncodeGzip); !ok {\n			return bfe_module.BfeHandlerGoOn\n		}\n", Silent: true},
+			{Name: "silent-length-drop-in-helper", File: "bfe_modules/mod_compress/mod_compress.go", Old: "\tres.Header.Del(\"Content-Length\")\n\tm.state.ResEncodeCompress.Inc(1)\n\n\treturn bfe_module.BfeHandlerGoOn\n}\n", New: "\tm.markCompressed(res)\n\n\treturn bfe_module.BfeHandlerGoOn\n}\n\nfunc (m *ModuleCompress) markCompressed(res *bfe_http.Response) {\n\tres.Header.Del(\"Content-Length\")\n\tm.state.ResEncodeCompress.Inc(1)\n}\n", Silent: true},
+			{Name: "silent-gzip-arm-in-helper", File: "bfe_modules/mod_compress/mod_compress.go", Old: "func (m *ModuleCompress) compressHandler(req *bfe_basic.Request, res *bfe_http.Response) int {\n\tacceptEncoding := req.HttpRequest.Header.GetDirect(\"Accept-Encoding\")\n\tif !checkSupportCompress(acceptEncoding) {\n\t\treturn bfe_module.BfeHandlerGoOn\n\t}\n\tm.state.ReqSupportCompress.Inc(1)\n\n\tcontentEncoding := res.Header.GetDirect(\"Content-Encoding\")\n\tif len(contentEncoding) != 0 && contentEncoding != EncodeIdentity {\n\t\treturn bfe_module.BfeHandlerGoOn\n\t}\n\n\trule, err := m.getCompressRule(req)\n\tif err != nil {\n\t\treturn bfe_module.BfeHandlerGoOn\n\t}\n\n\tswitch rule.Action.Cmd {\n\tcase ActionGzip:\n\t\tif !checkSupportGzipCompress(acceptEncoding) {\n\t\t\treturn bfe_module.BfeHandlerGoOn\n\t\t}\n\n\t\tres.Body, err = NewGzipFilter(res.Body, rule.Action.Quality, rule.Action.FlushSize)\n\t\tif err != nil {\n\t\t\treturn bfe_module.BfeHandlerGoOn\n\t\t}\n\n\t\tres.Header.Set(\"Content-Encoding\", EncodeGzip)\n\t\tm.state.ResEncodeGzipCompress.Inc(1)\n", New: "func (m *ModuleCompress) installGzip(accepted string, res *bfe_http.Response, rule *compressRule) bool {\n\tif !checkSupportGzipCompress(accepted) {\n\t\treturn false\n\t}\n\n\tvar err error\n\tres.Body, err = NewGzipFilter(res.Body, rule.Action.Quality, rule.Action.FlushSize)\n\tif err != nil {\n\t\treturn false\n\t}\n\n\tres.Header.Set(\"Content-Encoding\", EncodeGzip)\n\tm.state.ResEncodeGzipCompress.Inc(1)\n\treturn true\n}\n\nfunc (m *ModuleCompress) compressHandler(req *bfe_basic.Request, res *bfe_http.Response) int {\n\tacceptEncoding := req.HttpRequest.Header.GetDirect(\"Accept-Encoding\")\n\tif !checkSupportCompress(acceptEncoding) {\n\t\treturn bfe_module.BfeHandlerGoOn\n\t}\n\tm.state.ReqSupportCompress.Inc(1)\n\n\tcontentEncoding := res.Header.GetDirect(\"Content-Encoding\")\n\tif len(contentEncoding) != 0 && contentEncoding != EncodeIdentity {\n\t\treturn bfe_module.BfeHandlerGoOn\n\t}\n\n\trule, err := m.getCompressRule(req)\n\tif err != nil {\n\t\treturn bfe_module.BfeHandlerGoOn\n\t}\n\n\tswitch rule.Action.Cmd {\n\tcase ActionGzip:\n\t\tif !m.installGzip(acceptEncoding, res, rule) {\n\t\t\treturn bfe_module.BfeHandlerGoOn\n\t\t}\n", Silent: true},
+			{Name: "silent-prior-encoding-mirrored", File: "bfe_modules/mod_compress/mod_compress.go", Old: "\tif len(contentEncoding) != 0 && contentEncoding != EncodeIdentity {", New: "\tif 0 < len(contentEncoding) && EncodeIdentity != contentEncoding {", Silent: true},
+			{Name: "silent-copied-mirrored", File: "bfe_modules/mod_compress/gzip_filter.go", Old: "\tif c != 0 {\n", New: "\tif 0 < c {\n", Silent: true},
 		},
 	})
 }
@@ -262,7 +266,12 @@ func runC54(c *core.Ctx) {
 			stores = append(stores, info)
 		})
 	}
-	handlerArms := m.armLabels(handler)
+	handlerArms := map[string]bool{}
+	for _, g := range c.P.Region(handler) {
+		for k, live := range m.armLabels(g) {
+			handlerArms[k] = handlerArms[k] || live
+		}
+	}
 	armOfCtor := map[string]string{}
 	seenCtor := map[string]int{}
 	for _, si := range stores {
@@ -313,36 +322,49 @@ func runC54(c *core.Ctx) {
 			r, ok := in.(*ssa.Return)
 			return ok && !mdEstablished(r.Block(), ctorErr(true))
 		}
-		// (2) Content-Encoding and Content-Length
-		isCE := func(in ssa.Instruction) (string, bool) {
-			cc, ok := mdHeaderOp(in, "Set", "Add")
-			if !ok || len(cc.Args) != 3 || mdHeaderOf(cc) != si.res {
-				return "", false
+		// (2) Content-Encoding and Content-Length. The queries run over the
+		// calling context: when the store sits in a private helper of the
+		// handler the paths continue after the helper's call, and a call that
+		// hands the response to a function that always sets the header counts.
+		ceEv := func(want func(string) bool) m2Ev {
+			return func(in ssa.Instruction, obj ssa.Value, resolve func(ssa.Value) ssa.Value) bool {
+				cc, ok := mdHeaderOp(in, "Set", "Add")
+				if !ok || len(cc.Args) != 3 || obj == nil || mdHeaderOf(cc) != obj {
+					return false
+				}
+				if n, ok := core.ConstString(resolve(cc.Args[1])); !ok || n != "Content-Encoding" {
+					return false
+				}
+				v, ok := core.ConstString(resolve(cc.Args[2]))
+				if !ok {
+					v = "?"
+				}
+				return want(v)
 			}
-			if n, ok := core.ConstString(cc.Args[1]); !ok || n != "Content-Encoding" {
-				return "", false
-			}
-			v, ok := core.ConstString(cc.Args[2])
-			if !ok {
-				return "?", true
-			}
-			return v, true
 		}
-		missing := core.ReachAvoiding(fn, si.st, func(in ssa.Instruction) bool { v, ok := isCE(in); return ok && v == coding }, normalReturn)
-		wrong := core.ReachAvoiding(fn, si.st, nil, func(in ssa.Instruction) bool { v, ok := isCE(in); return ok && v != coding })
-		c.Check("encoding-set", key, pos, missing == nil && wrong == nil && coding != "",
-			fmt.Sprintf("after installing the %s filter: a path returns without Content-Encoding: %s being set on the response (%v) or another Content-Encoding value is set (%v)", coding, coding, missing != nil, wrong != nil))
-		noDel := core.ReachAvoiding(fn, si.st, func(in ssa.Instruction) bool {
+		delEv := func(in ssa.Instruction, obj ssa.Value, resolve func(ssa.Value) ssa.Value) bool {
 			cc, ok := mdHeaderOp(in, "Del")
-			if !ok || len(cc.Args) != 2 || mdHeaderOf(cc) != si.res {
+			if !ok || len(cc.Args) != 2 || obj == nil || mdHeaderOf(cc) != obj {
 				return false
 			}
-			n, ok := core.ConstString(cc.Args[1])
+			n, ok := core.ConstString(resolve(cc.Args[1]))
 			return ok && n == "Content-Length"
-		}, normalReturn)
+		}
+		normalRet := func(r *ssa.Return) bool { return normalReturn(r) }
+		missing := m2EscapesCtx(c.P, si.st, normalRet, func(up func(ssa.Value) ssa.Value) func(ssa.Instruction) bool {
+			return m2Must(ceEv(func(v string) bool { return v == coding }), up(si.res), m2Ident, 2)
+		})
+		wrong := m2ReachAnyCtx(c.P, si.st, func(up func(ssa.Value) ssa.Value) func(ssa.Instruction) bool {
+			return m2May(ceEv(func(v string) bool { return v != coding }), up(si.res), m2Ident, 2)
+		})
+		c.Check("encoding-set", key, pos, missing == nil && wrong == nil && coding != "",
+			fmt.Sprintf("after installing the %s filter: a path returns without Content-Encoding: %s being set on the response (%v) or another Content-Encoding value is set (%v)", coding, coding, missing != nil, wrong != nil))
+		noDel := m2EscapesCtx(c.P, si.st, normalRet, func(up func(ssa.Value) ssa.Value) func(ssa.Instruction) bool {
+			return m2Must(delEv, up(si.res), m2Ident, 2)
+		})
 		c.Check("length-dropped", key, pos, noDel == nil, "after installing the filter a path returns with the backend's Content-Length still present (the compressed body has a different length)")
 		// (3) accept gate
-		accept := mdEstablished(si.st.Block(), func(f mdFact) bool {
+		accept := m2EstablishedCtx(c.P, si.st.Block(), func(f mdFact, _ func(ssa.Value) ssa.Value) bool {
 			if !f.Pol {
 				return false
 			}
@@ -350,7 +372,7 @@ func runC54(c *core.Ctx) {
 			if tok == "" || tok != coding {
 				return false
 			}
-			return mdSliceHas(arg, func(v ssa.Value) bool {
+			return m2SliceHasCtx(c.P, arg, func(v ssa.Value) bool {
 				c2, _ := mdCallOf(v)
 				if c2 == nil || !core.CallIs(c2, "bfe_http.Header.GetDirect", "bfe_http.Header.Get") || len(c2.Args) != 2 {
 					return false
@@ -361,39 +383,49 @@ func runC54(c *core.Ctx) {
 				}
 				h := mdHeaderOf(c2)
 				return h != nil && strings.HasSuffix(core.TypeStr(h.Type()), "bfe_http.Request")
-			})
+			}, 0)
 		})
-		c.Check("accept-gate", key, pos, accept, "the "+coding+" filter is installed without the request's Accept-Encoding having been tested for the token `"+coding+"`; facts: "+mdFactStrs(si.st.Block()))
+		c.Check("accept-gate", key, pos, accept, "the "+coding+" filter is installed without the request's Accept-Encoding having been tested for the token `"+coding+"`; facts: "+m2FactStrsCtx(c.P, si.st.Block()))
 		// prior encoding
-		isRespCE := func(v ssa.Value) bool {
-			c2, _ := mdCallOf(v)
-			if c2 == nil || !core.CallIs(c2, "bfe_http.Header.GetDirect", "bfe_http.Header.Get") || len(c2.Args) != 2 || mdHeaderOf(c2) != si.res {
-				return false
+		prior := m2EstablishedCtx(c.P, si.st.Block(), func(f mdFact, up func(ssa.Value) ssa.Value) bool {
+			res := up(si.res) // the response in the frame the fact lives in
+			isRespCE := func(v ssa.Value) bool {
+				c2, _ := mdCallOf(v)
+				if c2 == nil || res == nil || !core.CallIs(c2, "bfe_http.Header.GetDirect", "bfe_http.Header.Get") || len(c2.Args) != 2 || mdHeaderOf(c2) != res {
+					return false
+				}
+				n, ok := core.ConstString(c2.Args[1])
+				return ok && n == "Content-Encoding"
 			}
-			n, ok := core.ConstString(c2.Args[1])
-			return ok && n == "Content-Encoding"
-		}
-		prior := mdEstablished(si.st.Block(), func(f mdFact) bool {
 			if x, s, equal, ok := mdStrTest(f); ok && isRespCE(x) {
 				return equal && (s == "" || s == "identity")
 			}
-			if b, ok := f.Cond.(*ssa.BinOp); ok {
-				if k, isK := mdIntConst(b.Y); isK && k == 0 {
-					if c2, _ := mdCallOf(b.X); c2 != nil {
-						if bi, isB := c2.Value.(*ssa.Builtin); isB && bi.Name() == "len" && isRespCE(c2.Args[0]) {
-							return (b.Op == token.EQL && f.Pol) || (b.Op == token.NEQ && !f.Pol) || (b.Op == token.GTR && !f.Pol)
-						}
-					}
+			// len(ce) == 0 in any spelling: len(ce) == 0, 0 == len(ce), !(len(ce) != 0), !(len(ce) > 0), len(ce) < 1, ...
+			isLenCE := func(v ssa.Value) bool {
+				c2, _ := mdCallOf(v)
+				if c2 == nil || len(c2.Args) != 1 {
+					return false
 				}
+				bi, isB := c2.Value.(*ssa.Builtin)
+				return isB && bi.Name() == "len" && isRespCE(c2.Args[0])
 			}
-			return false
+			isK := func(k int64) func(ssa.Value) bool {
+				return func(v ssa.Value) bool { n, ok := mdIntConst(v); return ok && n == k }
+			}
+			g := core.Guard{Cond: f.Cond, Pol: f.Pol}
+			return g.CmpIs(token.EQL, isLenCE, isK(0)) || g.CmpIs(token.LEQ, isLenCE, isK(0)) || g.CmpIs(token.LSS, isLenCE, isK(1))
 		})
-		c.Check("prior-encoding", key, pos, prior, "the filter is installed although the response may already carry a non-identity Content-Encoding (double encoding); facts: "+mdFactStrs(si.st.Block()))
+		c.Check("prior-encoding", key, pos, prior, "the filter is installed although the response may already carry a non-identity Content-Encoding (double encoding); facts: "+m2FactStrsCtx(c.P, si.st.Block()))
 		// (4) command arm
 		arm := ""
-		for _, clause := range m.consAt(si.st.Block()) {
-			if len(clause) == 1 && clause[0].kind == "cmd" && clause[0].op == mdAtomEq {
-				arm = clause[0].label
+		for _, fr := range m2Frames(c.P, si.st.Block()) {
+			for _, clause := range m.consAt(fr.Block) {
+				if len(clause) == 1 && clause[0].kind == "cmd" && clause[0].op == mdAtomEq {
+					arm = clause[0].label
+				}
+			}
+			if arm != "" {
+				break
 			}
 		}
 		armOfCtor[name] = arm
@@ -536,22 +568,19 @@ func runC54(c *core.Ctx) {
 			c2, i := mdCallOf(v)
 			return c2 == &copyCall.Call && i == idx
 		}
+		// copied(nonZero): the fact says the copy moved some / no bytes, in any
+		// spelling (c != 0, 0 < c, c >= 1, !(c == 0); c == 0, c <= 0, c < 1, ...)
 		copied := func(nonZero bool) func(f mdFact) bool {
+			isC := func(v ssa.Value) bool { return fromCopy(v, 0) }
+			isK := func(k int64) func(ssa.Value) bool {
+				return func(v ssa.Value) bool { n, ok := mdIntConst(v); return ok && n == k }
+			}
 			return func(f mdFact) bool {
-				b, ok := f.Cond.(*ssa.BinOp)
-				if !ok || !fromCopy(b.X, 0) {
-					return false
+				g := core.Guard{Cond: f.Cond, Pol: f.Pol}
+				if nonZero {
+					return g.CmpIs(token.NEQ, isC, isK(0)) || g.CmpIs(token.GTR, isC, isK(0)) || g.CmpIs(token.GEQ, isC, isK(1))
 				}
-				if k, isK := mdIntConst(b.Y); !isK || k != 0 {
-					return false
-				}
-				switch b.Op {
-				case token.NEQ, token.GTR:
-					return f.Pol == nonZero
-				case token.EQL:
-					return f.Pol != nonZero
-				}
-				return false
+				return g.CmpIs(token.EQL, isC, isK(0)) || g.CmpIs(token.LEQ, isC, isK(0)) || g.CmpIs(token.LSS, isC, isK(1))
 			}
 		}
 		// EOF is not a failure
